@@ -37,6 +37,7 @@
 #include "stir/scatter/ScatterSimulation.h"
 #include "stir/data/SinglesRates.h"
 #include "stir/ProjDataInterfile.h"
+#include "stir/SegmentByView.h"
 #include "stir/IO/InterfileHeader.h"
 #include "stir/MultipleDataSetHeader.h"
 #include "stir/ExamInfo.h"
@@ -44,6 +45,8 @@
 #include "stir/Succeeded.h"
 #include <algorithm>
 #include <deque>
+#include <dirent.h>
+#include <regex>
 #include <map>
 #include <memory>
 #include <set>
@@ -179,6 +182,7 @@ struct Table
   std::unique_ptr<Probe> kp;
   std::vector<std::unique_ptr<Slot>> all;
   std::vector<Slot*> order;
+  std::vector<std::pair<std::string, std::string>> aliases; // (alias as registered, standardised target)
   bool silent = false; // do not write protocol lines (oracle-only tables)
 
   explicit Table(bool silent_v = false) { reset(silent_v); }
@@ -187,6 +191,7 @@ struct Table
     silent = silent_v;
     kp.reset(new Probe);
     order.clear();
+    aliases.clear();
     if (!silent)
       emit("cfg reset", "ok");
   }
@@ -303,6 +308,16 @@ struct Table
     if (!silent)
       emit(std::string("cfg alias ") + (deprecated ? "1 " : "0 ") + hexs(key) + " " + hexs(al), "ok");
     kp->add_alias_key(key, al, deprecated);
+    aliases.emplace_back(al, kp->stdk(key));
+  }
+  // the aliases (as registered) whose target is the slot with this standardised keyword
+  std::vector<std::string> aliases_of(const std::string& stdkey) const
+  {
+    std::vector<std::string> r;
+    for (auto& a : aliases)
+      if (a.second == stdkey)
+        r.push_back(a.first);
+    return r;
   }
   std::string dump() const
   {
@@ -653,13 +668,14 @@ struct ProbeTable : public Table
     p.key = "Probe Parameters";
     add(p);
     p = Slot();
+    // registered spellings are deliberately not in standardised form (capitals, '_', '!', repeated / trailing blanks)
     p.kind = K_INT;
-    p.key = "number of things";
+    p.key = "Number of_Things ";
     p.i = 11;
     n_things = add(p);
     p = Slot();
     p.kind = K_ASCII;
-    p.key = "a name";
+    p.key = "A  !name";
     p.s = "dflt";
     a_name = add(p);
     p = Slot();
@@ -706,8 +722,9 @@ struct ProbeTable : public Table
     p.action = "stop";
     p.key = "End Probe Parameters";
     add(p);
-    alias("number of things", "nr of things", false);
-    alias("a name", "old name", true);
+    // ... and the aliases name their target in yet another spelling
+    alias("NUMBER of  things", "nr of things", false);
+    alias("a_name", "Old Name", true);
   }
 };
 
@@ -779,9 +796,41 @@ seed_texts()
       m["GeneralisedPrior/FilterRootPrior"] = { "FilterRootPrior Parameters :=\npenalisation factor := 2\nFilter type := Median\nMedian "
                                                 "Filter Parameters :=\nmask radius z := 1\nEnd Median Filter Parameters :=\nEND "
                                                 "FilterRootPrior Parameters :=\n" };
+      // classes that need external data: small files written by the harness itself (write_class_fixtures), @D@ = their directory
+      m["BinNormalisation/From ProjData"] = { "Bin Normalisation From ProjData :=\nnormalisation_projdata_filename := @D@/fx_proj.hs\nEnd Bin "
+                                              "Normalisation From ProjData :=\n" };
+      m["BinNormalisation/From Attenuation Image"]
+          = { "Bin Normalisation From Attenuation Image :=\nattenuation_image_filename := @D@/fx_image.hv\nforward projector type := Ray "
+              "Tracing\nForward Projector Using Ray Tracing Parameters :=\nEnd Forward Projector Using Ray Tracing Parameters :=\nEnd Bin "
+              "Normalisation From Attenuation Image :=\n" };
+      m["BinNormalisation/SPECT"] = { "Bin Normalisation SPECT :=\nuse uniformity factors := 0\nuse detector efficiencies := 0\nuse decay "
+                                      "correction := 0\nprojdata filename := @D@/fx_proj.hs\nEnd Bin Normalisation SPECT :=\n" };
+      m["Shape3D/Discretised Shape3D"] = { "Discretised Shape3D Parameters :=\ninput filename := @D@/fx_image.hv\nEND :=\n" };
+      m["DataProcessor/Nonseparable Convolution Using Real DFT Image Filter"]
+          = { "Nonseparable Convolution Using Real DFT Image Filter :=\nfilter kernel := @D@/fx_image.hv\nEND Nonseparable Convolution Using "
+              "Real DFT Image Filter :=\n" };
+      m["KineticModel/Patlak Plot"] = { "Patlak Plot Parameters :=\nBlood Data Filename := @D@/fx_plasma.if\nTime Frame Definition Filename := "
+                                        "@D@/fx_frames.fdef\nend Patlak Plot Parameters :=\n" };
+      m["Reconstruction/FBP2D"] = { "FBP2DParameters :=\ninput file := @D@/fx_proj.hs\noutput filename prefix := @D@/fx_out_fbp2d\nEnd :=\n" };
+      m["Reconstruction/FBP3DRP"] = { "FBP3DRPParameters :=\ninput file := @D@/fx_proj.hs\noutput filename prefix := @D@/fx_out_fbp3d\nEnd :=\n" };
+      const std::string objfn = "objective function type := PoissonLogLikelihoodWithLinearModelForMeanAndProjData\n"
+                                "PoissonLogLikelihoodWithLinearModelForMeanAndProjData Parameters :=\ninput file := @D@/fx_proj.hs\n"
+                                "projector pair type := Matrix\nProjector Pair Using Matrix Parameters :=\nMatrix type := Ray Tracing\n"
+                                "Ray Tracing Matrix Parameters :=\nEnd Ray Tracing Matrix Parameters :=\nEnd Projector Pair Using Matrix Parameters :=\n"
+                                "end PoissonLogLikelihoodWithLinearModelForMeanAndProjData Parameters :=\n";
+      m["Reconstruction/OSMAPOSL"] = { "OSMAPOSLParameters :=\n" + objfn + "output filename prefix := @D@/fx_out_osmaposl\nnumber of subsets := 2\nnumber of "
+                                       "subiterations := 2\nEnd :=\n" };
+      m["Reconstruction/OSSPS"] = { "OSSPSParameters :=\n" + objfn + "output filename prefix := @D@/fx_out_ossps\nnumber of subsets := 2\nnumber of "
+                                    "subiterations := 2\nEnd :=\n" };
+      m["Reconstruction/KOSMAPOSL"] = { "KOSMAPOSLParameters :=\n" + objfn + "output filename prefix := @D@/fx_out_kosmaposl\nnumber of subsets := 2\nnumber of "
+                                        "subiterations := 2\nanatomical image filenames := {@D@/fx_image.hv}\nsigma_m := {1}\nEnd KOSMAPOSLParameters :=\n" };
+      m["ProjDataRebinning/FORE"] = { "FORE Parameters :=\ninput file := @D@/fx_proj.hs\noutput filename prefix := @D@/fx_out_fore\nEnd FORE Parameters :=\n" };
     }
   return m;
 }
+
+static std::string
+with_dir(std::string t);
 
 static std::vector<std::string>
 value_replacements(const std::string& value)
@@ -850,7 +899,10 @@ probe_class_in_child(const std::string& rootname, const std::string& name, vh::R
   auto it = seed_texts().find(rootname + "/" + name);
   if (it != seed_texts().end())
     for (auto& t : it->second)
-      texts.push_back(t);
+      if (t.find("@D@") == std::string::npos)
+        texts.push_back(t);
+      else if (!with_dir("@D@").empty())
+        texts.push_back(with_dir(t));
   int constructed = 0;
   for (std::size_t ti = 0; ti < texts.size(); ++ti)
     {
@@ -1231,7 +1283,7 @@ random_table(Table& t, vh::Rng& rng, std::vector<std::string>& keys)
   for (int k = 0; k < n; ++k)
     {
       p = Slot();
-      p.key = rng.range(0, 4) == 0 ? equivalent_variant(rng, random_key(rng)) : random_key(rng);
+      p.key = rng.range(0, 2) == 0 ? equivalent_variant(rng, random_key(rng)) : random_key(rng);
       p.kind = static_cast<Kind>(rng.range(1, 9));
       const int vs = rng.range(0, 4);
       switch (p.kind)
@@ -1282,12 +1334,47 @@ random_table(Table& t, vh::Rng& rng, std::vector<std::string>& keys)
   p.action = "stop";
   p.key = "END";
   t.add(p);
+  // aliases: the TARGET is given in any spelling equivalent to the registered one (the registered spelling itself may have
+  // capitals, underscores, '!', repeated or leading/trailing blanks), the alias in any spelling too
   if (keys.size() >= 2)
     {
-      t.alias(keys[0], rng.coin() ? "alias one" : equivalent_variant(rng, keys[1] + " alt"), rng.coin());
-      if (rng.coin())
-        t.alias(keys[1], "second alias", false);
+      const int nalias = rng.range(1, 3);
+      for (int a = 0; a < nalias; ++a)
+        {
+          const std::string& target = keys[rng.range(0, static_cast<int>(keys.size()) - 1)];
+          std::string target_spelling;
+          switch (rng.range(0, 3))
+            {
+            case 0:
+              target_spelling = target; // as registered
+              break;
+            case 1:
+              target_spelling = t.kp->stdk(target); // standardised
+              break;
+            default:
+              target_spelling = equivalent_variant(rng, target);
+            }
+          static const char* alias_names[] = { "alias one", "second alias", "Old_Name", "%TOF alias", "Number of  THINGS (old)" };
+          std::string al = rng.range(0, 2) == 0 ? std::string(alias_names[rng.range(0, 4)]) : random_key(rng) + " alt";
+          if (rng.coin())
+            al = equivalent_variant(rng, al);
+          t.alias(target_spelling, al, rng.coin());
+        }
+      if (rng.range(0, 5) == 0) // an alias of an alias, an alias of a keyword that does not exist
+        t.alias(rng.coin() ? std::string("alias one") : std::string("no such keyword"), "indirect alias", rng.coin());
     }
+}
+
+// the spelling used for the keyword of slot `s` in a generated text: the registered one, or (1 in 3, if there is one) any
+// spelling of one of its aliases
+static std::string
+spelling_for(Table& t, const Slot& s, vh::Rng& rng)
+{
+  const std::vector<std::string> al = t.aliases_of(s.stdkey);
+  if (al.empty() || rng.range(0, 2) != 0)
+    return s.key;
+  const std::string& a = al[rng.range(0, static_cast<int>(al.size()) - 1)];
+  return rng.coin() ? a : equivalent_variant(rng, a);
 }
 
 // a text with one line per key of the table (values mostly well formed for the kind of the key)
@@ -1307,34 +1394,35 @@ text_for_table(Table& t, vh::Rng& rng)
         {
           std::ostringstream v;
           const int n = std::max<int>(1, std::max(s->il.size(), std::max(s->sl.size(), s->vl.size())));
+          const std::string skey = spelling_for(t, *s, rng);
           switch (s->kind)
             {
             case K_INT:
-              body += s->key + " := " + std::to_string(rng.range(-99, 99)) + "\n";
+              body += skey + " := " + std::to_string(rng.range(-99, 99)) + "\n";
               break;
             case K_BOOL:
-              body += s->key + " := " + std::to_string(rng.range(0, 2)) + "\n";
+              body += skey + " := " + std::to_string(rng.range(0, 2)) + "\n";
               break;
             case K_ASCII:
-              body += s->key + " := " + WORDS[rng.range(0, NWORDS - 1)] + (rng.coin() ? " and more" : "") + "\n";
+              body += skey + " := " + WORDS[rng.range(0, NWORDS - 1)] + (rng.coin() ? " and more" : "") + "\n";
               break;
             case K_CHOICE:
-              body += s->key + " := " + (s->values.empty() ? std::string("x") : equivalent_variant(rng, s->values[rng.range(0, static_cast<int>(s->values.size()) - 1)])) + "\n";
+              body += skey + " := " + (s->values.empty() ? std::string("x") : equivalent_variant(rng, s->values[rng.range(0, static_cast<int>(s->values.size()) - 1)])) + "\n";
               break;
             case K_ILIST:
-              body += s->key + " := {" + std::to_string(rng.range(-9, 9)) + ", " + std::to_string(rng.range(0, 99)) + "}\n";
+              body += skey + " := {" + std::to_string(rng.range(-9, 9)) + ", " + std::to_string(rng.range(0, 99)) + "}\n";
               break;
             case K_SLIST:
-              body += s->key + " := {" + WORDS[rng.range(0, NWORDS - 1)] + "," + WORDS[rng.range(0, NWORDS - 1)] + " z}\n";
+              body += skey + " := {" + WORDS[rng.range(0, NWORDS - 1)] + "," + WORDS[rng.range(0, NWORDS - 1)] + " z}\n";
               break;
             case K_VINT:
-              body += s->key + "[" + std::to_string(rng.range(1, n)) + "] := " + std::to_string(rng.range(-99, 99)) + "\n";
+              body += skey + "[" + std::to_string(rng.range(1, n)) + "] := " + std::to_string(rng.range(-99, 99)) + "\n";
               break;
             case K_VASCII:
-              body += s->key + "[" + std::to_string(rng.range(1, n)) + "] := " + WORDS[rng.range(0, NWORDS - 1)] + "\n";
+              body += skey + "[" + std::to_string(rng.range(1, n)) + "] := " + WORDS[rng.range(0, NWORDS - 1)] + "\n";
               break;
             case K_VILIST:
-              body += s->key + "[" + std::to_string(rng.range(1, n)) + "] := "
+              body += skey + "[" + std::to_string(rng.range(1, n)) + "] := "
                       + (rng.coin() ? std::to_string(rng.range(1, 64)) : "{" + std::to_string(rng.range(1, 9)) + "," + std::to_string(rng.range(1, 9)) + "}") + "\n";
               break;
             default:
@@ -1343,6 +1431,364 @@ text_for_table(Table& t, vh::Rng& rng)
         }
     }
   return start + body + stop;
+}
+
+
+// ------------------------------------------------------------------------------------------------ aliases registered by the library
+// Every `add_alias_key("<target>", "<alias>")` call with literal arguments in the library sources (scanned at run time, so a
+// newly registered alias is picked up).  Calls whose arguments are not literals, or that sit in a class the harness has no
+// driver for, are listed in the .classes file (not failed).
+struct LibAlias
+{
+  std::string file, target, alias;
+};
+static std::vector<LibAlias> g_lib_aliases;
+static std::vector<std::string> g_lib_alias_notes;
+
+static void
+scan_dir_for_aliases(const std::string& dir, int depth)
+{
+  DIR* d = opendir(dir.c_str());
+  if (!d)
+    return;
+  std::vector<std::string> names;
+  while (struct dirent* e = readdir(d))
+    if (e->d_name[0] != '.')
+      names.push_back(e->d_name);
+  closedir(d);
+  std::sort(names.begin(), names.end());
+  static const std::regex call("add_alias_key\\s*\\(\\s*(\"(?:[^\"\\\\]|\\\\.)*\"|[A-Za-z_][A-Za-z0-9_:]*)\\s*,\\s*(\"(?:[^\"\\\\]|\\\\.)*\"|[A-Za-z_][A-Za-z0-9_:]*)");
+  for (const std::string& n : names)
+    {
+      const std::string path = dir + "/" + n;
+      struct stat st;
+      if (stat(path.c_str(), &st) != 0)
+        continue;
+      if (S_ISDIR(st.st_mode))
+        {
+          if (depth < 3 && n != "test" && n != "recon_test" && n != "swig" && n != "include")
+            scan_dir_for_aliases(path, depth + 1);
+          continue;
+        }
+      if (n.size() < 4 || n.substr(n.size() - 4) != ".cxx" || n == "KeyParser.cxx")
+        continue;
+      std::ifstream f(path.c_str());
+      std::ostringstream ss;
+      ss << f.rdbuf();
+      const std::string text = ss.str();
+      for (std::sregex_iterator it(text.begin(), text.end(), call), end; it != end; ++it)
+        {
+          const std::string a = (*it)[1].str(), b = (*it)[2].str();
+          if (a[0] == '"' && b[0] == '"')
+            g_lib_aliases.push_back({ n, a.substr(1, a.size() - 2), b.substr(1, b.size() - 2) });
+          else
+            g_lib_alias_notes.push_back("alias-site " + n + ": add_alias_key(" + a + ", " + b + ") | arguments are not string literals: not driven");
+        }
+    }
+}
+
+// outcome of parsing a projection-data header: "rejected", or everything the header object and the ProjDataInfo built from it print
+static std::string
+pdfs_outcome(const std::string& text)
+{
+  try
+    {
+      InterfilePDFSHeader hdr;
+      std::istringstream in(text);
+      if (!hdr.parse(in))
+        return "rejected";
+      std::string r = "accepted\n" + hdr.parameter_info();
+      if (hdr.data_info_sptr)
+        r += "\n--- ProjDataInfo\n" + hdr.data_info_sptr->parameter_info();
+      return r;
+    }
+  catch (std::bad_alloc&)
+    {
+      throw;
+    }
+  catch (std::exception&)
+    {
+      return "rejected";
+    }
+}
+
+static std::string
+first_difference(const std::string& a, const std::string& b);
+
+// ORACLE "aliases resolve to their target" for the aliases of InterfilePDFSHeader: a header that spells a keyword with (any
+// spelling of) its alias parses to the same object as the header that uses the target keyword.
+static void
+library_alias_oracle(const std::string& tof_header, vh::Rng& rng, bool thorough)
+{
+  Probe kp;
+  std::vector<std::string> lines = split_lines(tof_header);
+  if (lines.size() < 3)
+    {
+      oracle_fail("library alias oracle: no TOF projection-data header was written by the library");
+      return;
+    }
+  std::set<std::string> done;
+  for (const LibAlias& la : g_lib_aliases)
+    {
+      if (la.file != "InterfileHeader.cxx")
+        {
+          g_lib_alias_notes.push_back("alias-site " + la.file + ": '" + la.alias + "' -> '" + la.target + "' | no driver for this class in the harness"
+                                      + (la.file == "CListModeDataROOT.cxx" ? " (not compiled: HAVE_CERN_ROOT is off)" : ""));
+          continue;
+        }
+      if (!done.insert(kp.stdk(la.alias)).second)
+        continue;
+      // the line of the header that sets the target keyword (inserted before the last line if the header does not have it)
+      int li = -1;
+      for (std::size_t k = 0; k < lines.size(); ++k)
+        if (lines[k].find(":=") != std::string::npos && kp.stdk(kp.kw(lines[k])) == kp.stdk(la.target))
+          li = static_cast<int>(k);
+      std::vector<std::string> base = lines;
+      std::string base_value = "1";
+      if (li < 0)
+        {
+          li = static_cast<int>(base.size()) - 1;
+          base.insert(base.begin() + li, la.target + " := 1");
+        }
+      else
+        {
+          base_value = base[li].substr(base[li].find(":=") + 2);
+          while (!base_value.empty() && base_value[0] == ' ')
+            base_value.erase(0, 1);
+        }
+      std::vector<std::string> values = { base_value };
+      {
+        char* end = nullptr;
+        const double d = std::strtod(base_value.c_str(), &end);
+        if (end != base_value.c_str() && *end == '\0')
+          {
+            const bool is_int = base_value.find_first_of(".eE") == std::string::npos;
+            values.push_back(is_int ? std::to_string(static_cast<long>(d) + 1) : std::to_string(d * 1.25 + 3));
+            values.push_back(is_int ? std::to_string(static_cast<long>(d) * 2 + 1) : std::to_string(d / 2));
+          }
+      }
+      int accepted = 0;
+      const int nspell = thorough ? 12 : 4;
+      for (const std::string& v : values)
+        {
+          std::vector<std::string> T = base;
+          T[li] = la.target + " := " + v;
+          const std::string oT = pdfs_outcome(join_lines(T));
+          if (oT != "rejected")
+            ++accepted;
+          for (int sp = 0; sp < nspell; ++sp)
+            {
+              const std::string spelling = sp == 0 ? la.alias : equivalent_variant(rng, la.alias);
+              std::vector<std::string> A = base;
+              A[li] = spelling + (rng.coin() ? " := " : ":=") + v;
+              const std::string oA = pdfs_outcome(join_lines(A));
+              ++g_oracle_checks;
+              if (oA != oT)
+                oracle_fail("library alias: InterfilePDFSHeader registers '" + la.alias + "' as alias of '" + la.target + "', but a TOF header with the line '"
+                            + A[li] + "' does not parse to the same object as the header with '" + T[li] + "': "
+                            + (oT == "rejected" ? std::string("target spelling rejected, alias spelling accepted")
+                                                : oA == "rejected" ? std::string("alias spelling rejected, target spelling accepted")
+                                                                   : first_difference(oT, oA)));
+            }
+        }
+      ++g_oracle_checks;
+      if (accepted == 0)
+        oracle_fail("library alias oracle is vacuous for '" + la.alias + "': no header with '" + la.target + "' was accepted");
+      // the value has to be used, not just tolerated: two accepted values give different objects
+      if (values.size() > 1)
+        {
+          std::vector<std::string> A1 = base, A2 = base;
+          A1[li] = la.alias + " := " + values[0];
+          A2[li] = la.alias + " := " + values[1];
+          const std::string o1 = pdfs_outcome(join_lines(A1)), o2 = pdfs_outcome(join_lines(A2));
+          ++g_oracle_checks;
+          if (o1 != "rejected" && o2 != "rejected" && o1 == o2)
+            oracle_fail("library alias: the value given with the alias '" + la.alias + "' is not used: '" + A1[li] + "' and '" + A2[li]
+                        + "' give the same object");
+        }
+    }
+}
+
+// in a text for table `t`: spell some keywords with (a variant of) one of their aliases
+static std::string
+substitute_aliases(Table& t, const std::string& text, vh::Rng& rng)
+{
+  std::vector<std::string> lines = split_lines(text);
+  for (std::string& l : lines)
+    {
+      const std::size_t as = l.find(":=");
+      if (as == std::string::npos || l.find('\\') != std::string::npos)
+        continue;
+      const std::string k = t.kp->kw(l);
+      const std::vector<std::string> al = t.aliases_of(t.kp->stdk(k));
+      if (al.empty() || k.size() > as || rng.range(0, 2) == 0)
+        continue;
+      const std::string& a = al[rng.range(0, static_cast<int>(al.size()) - 1)];
+      l = (rng.coin() ? a : equivalent_variant(rng, a)) + l.substr(k.size());
+    }
+  return join_lines(lines);
+}
+
+// ------------------------------------------------------------------------------------------------ every vectorised key type
+struct VecProbe : public KeyParser
+{
+  std::vector<int> vi;
+  std::vector<unsigned int> vu;
+  std::vector<unsigned long> vul;
+  std::vector<float> vf;
+  std::vector<double> vd;
+  std::vector<std::string> vs;
+  std::vector<std::vector<int>> vil;
+  std::vector<std::vector<double>> vdl;
+  explicit VecProbe(int n)
+  {
+    vi.assign(n, -7);
+    vu.assign(n, 7U);
+    vul.assign(n, 77UL);
+    vf.assign(n, 0.5F);
+    vd.assign(n, 0.25);
+    vs.assign(n, "u");
+    vil.assign(n, std::vector<int>(1, 9));
+    vdl.assign(n, std::vector<double>(2, 1.5));
+    add_start_key("Vec Parameters");
+    add_vectorised_key("v int", &vi);
+    add_vectorised_key("v unsigned", &vu);
+    add_vectorised_key("v unsigned long", &vul);
+    add_vectorised_key("v float", &vf);
+    add_vectorised_key("v double", &vd);
+    add_vectorised_key("v string", &vs);
+    add_vectorised_key("v int list", &vil);
+    add_vectorised_key("v double list", &vdl);
+    add_stop_key("End Vec Parameters");
+  }
+  template <class T>
+  static std::string one(const T& x)
+  {
+    std::ostringstream o;
+    o << x;
+    return o.str();
+  }
+  template <class T>
+  static std::string one(const std::vector<T>& x)
+  {
+    std::ostringstream o;
+    o << "(";
+    for (std::size_t k = 0; k < x.size(); ++k)
+      o << (k ? " " : "") << x[k];
+    o << ")";
+    return o.str();
+  }
+  template <class V>
+  static std::vector<std::string> elems(const V& v)
+  {
+    std::vector<std::string> r;
+    for (auto& x : v)
+      r.push_back(one(x));
+    return r;
+  }
+  std::vector<std::vector<std::string>> dump() const
+  {
+    return { elems(vi), elems(vu), elems(vul), elems(vf), elems(vd), elems(vs), elems(vil), elems(vdl) };
+  }
+};
+
+static void
+vectorised_oracle(vh::Rng& rng, bool thorough)
+{
+  static const char* keys[] = { "v int", "v unsigned", "v unsigned long", "v float", "v double", "v string", "v int list", "v double list" };
+  static const char* value_text[] = { "41", "42", "43", "2.5", "-0.125", "some text", "{3, 4}", "{0.5, 8}" };
+  static const char* value_elem[] = { "41", "42", "43", "2.5", "-0.125", "some text", "(3 4)", "(0.5 8)" };
+  const int sizes[] = { 0, 1, 3, 4 };
+  for (int n : sizes)
+    for (int type = 0; type < 8; ++type)
+      {
+        std::vector<std::string> idx = { "0", "-1", "-2", "1", std::to_string(n), std::to_string(n + 1), std::to_string(n + 2), "-2147483648",
+                                         "2147483647", " 2 ", "+1", std::to_string(rng.range(-5, n + 5)) };
+        if (thorough)
+          for (int k = 0; k < 8; ++k)
+            idx.push_back(std::to_string(rng.range(-1000, 1000)));
+        for (const std::string& ix : idx)
+          {
+            VecProbe p(n);
+            const std::vector<std::vector<std::string>> before = p.dump();
+            const std::string line = std::string(keys[type]) + "[" + ix + "] := " + value_text[type];
+            std::string tag;
+            try
+              {
+                std::istringstream is("Vec Parameters :=\n" + line + "\nEnd Vec Parameters :=\n");
+                tag = p.parse(is) ? "ok1" : "ok0";
+              }
+            catch (std::bad_alloc&)
+              {
+                throw;
+              }
+            catch (std::exception&)
+              {
+                tag = "err";
+              }
+            const int i = std::atoi(ix.c_str());
+            std::vector<std::vector<std::string>> expect = before;
+            const bool in_range = i >= 1 && i <= n;
+            if (in_range)
+              expect[type][i - 1] = value_elem[type];
+            ++g_oracle_checks;
+            if (p.dump() != expect || tag != (in_range ? "ok1" : "err"))
+              oracle_fail("vectorised key (" + std::string(keys[type]) + "): the line '" + line + "' on vectors of size " + std::to_string(n) + " answered " + tag
+                          + (p.dump() != expect ? " and the stored values are not 'element " + ix + " (1-based) replaced, nothing else changed'" : "")
+                          + "; expected " + (in_range ? "ok1" : "err (index outside 1..size)"));
+          }
+      }
+}
+
+// ------------------------------------------------------------------------------------------------ small files for classes that need external data
+static std::string g_fixture_dir;
+
+static void
+spit(const std::string& fn, const std::string& content)
+{
+  std::ofstream f(fn.c_str(), std::ios::binary);
+  f << content;
+}
+
+static void
+write_class_fixtures(const std::string& dir)
+{
+  mkdir(dir.c_str(), 0777);
+  try
+    {
+      shared_ptr<Scanner> scanner = vh::make_scanner(16, 3);
+      shared_ptr<ProjDataInfo> pdi = vh::make_pdi(scanner, 1, 2, 8, 7, false, 0);
+      shared_ptr<ExamInfo> exam(new ExamInfo);
+      exam->imaging_modality = ImagingModality::PT;
+      {
+        ProjDataInterfile pd(exam, pdi, dir + "/fx_proj");
+        for (int seg = pd.get_min_segment_num(); seg <= pd.get_max_segment_num(); ++seg)
+          {
+            SegmentByView<float> sv = pd.get_empty_segment_by_view(seg);
+            sv.fill(1.F);
+            pd.set_segment(sv);
+          }
+      }
+      shared_ptr<VoxelsOnCartesianGrid<float>> image = vh::make_image(*pdi, 1.F, 7, 5);
+      image->fill(1.F);
+      OutputFileFormat<DiscretisedDensity<3, float>>::default_sptr()->write_to_file(dir + "/fx_image", *image);
+      spit(dir + "/fx_frames.fdef", "1 60\n1 120\n1 300\n");
+      spit(dir + "/fx_plasma.if", "4\n0 0 0\n30 10 12\n200 5 6\n480 2 3\n");
+      g_fixture_dir = dir;
+    }
+  catch (std::exception& e)
+    {
+      std::fprintf(g_orc, "NOTE could not write the class fixtures: %s\n", one_line(e.what()).c_str());
+    }
+}
+
+static std::string
+with_dir(std::string t)
+{
+  std::size_t p;
+  while ((p = t.find("@D@")) != std::string::npos)
+    t.replace(p, 3, g_fixture_dir);
+  return t;
 }
 
 // ------------------------------------------------------------------------------------------------ main
@@ -1381,6 +1827,17 @@ main(int argc, char** argv)
   if (outdir.empty())
     outdir = ".";
   outdir += "/c17";
+  mkdir(outdir.c_str(), 0777);
+  {
+    // aliases registered in the library sources; small data files for the classes that need external data
+    const char* cfg = std::getenv("STIR_CONFIG_DIR");
+    std::string srcdir = cfg ? std::string(cfg) : std::string("/repo/src/config");
+    while (!srcdir.empty() && srcdir.back() == '/')
+      srcdir.erase(srcdir.size() - 1);
+    srcdir = srcdir.substr(0, srcdir.find_last_of('/') == std::string::npos ? 0 : srcdir.find_last_of('/'));
+    scan_dir_for_aliases(srcdir, 0);
+    write_class_fixtures(outdir + "/fixtures");
+  }
 
   // ================================================================ 1. every registered parsable class (oracle)
   {
@@ -1456,6 +1913,20 @@ main(int argc, char** argv)
         }
   }
 
+  // ================================================================ 2b. aliases registered by the library itself (oracle)
+  {
+    ++g_oracle_checks;
+    if (g_lib_aliases.empty())
+      oracle_fail("no add_alias_key call found in the library sources (STIR_CONFIG_DIR/..): the library-alias oracle did not run");
+    library_alias_oracle(header_texts.size() > 4 ? header_texts[4] : std::string(), rng, thorough);
+    for (const std::string& n : g_lib_alias_notes)
+      std::fprintf(g_cls, "%s\n", n.c_str());
+    for (const LibAlias& la : g_lib_aliases)
+      if (la.file == "InterfileHeader.cxx")
+        std::fprintf(g_cls, "alias-site %s: '%s' -> '%s' | driven (InterfilePDFSHeader: any spelling of the alias parses to the same object as the target keyword)\n",
+                     la.file.c_str(), la.alias.c_str(), la.target.c_str());
+  }
+
   // ================================================================ 3. fixed probe table: differential + oracle
   {
     ProbeTable t(false);
@@ -1513,6 +1984,24 @@ main(int argc, char** argv)
     t.do_parse(PROBE_START + "a name := foo\\"); // continuation backslash at end of input
     t.info();
 
+    // --- every modelled vectorised key type x index 0 / negative / in range / size+1 / beyond / wrapping / decorated
+    {
+      const int vsizes[] = { 0, 1, 3, 4 };
+      for (int vs : vsizes)
+        {
+          t = ProbeTable(false, vs);
+          static const char* vkeys[] = { "v ints", "v names", "v lists" };
+          static const char* vvals[] = { "55", "fifty five", "{5, 5}" };
+          const std::vector<std::string> idx = { "0",  "-1", "-2", "1", std::to_string(vs), std::to_string(vs + 1), std::to_string(vs + 2), "-2147483648", "2147483647",
+                                                 "2147483648", "4294967295", "4294967297", "-4294967295", "99999999999999999999", " 2 ", "+1", "", "x", "1x", "-" };
+          for (int vk = 0; vk < 3; ++vk)
+            for (const std::string& ix : idx)
+              t.do_parse(PROBE_START + vkeys[vk] + "[" + ix + "] := " + vvals[vk] + "\n" + PROBE_STOP);
+          t.info();
+        }
+      t = ProbeTable(false);
+    }
+
     // --- seeded mutations of the table's own parameter_info()
     const int nmut = thorough ? 6000 : 1200;
     for (int k = 0; k < nmut; ++k)
@@ -1521,7 +2010,9 @@ main(int argc, char** argv)
           {
             t = ProbeTable(false, rng.range(0, 4));
           }
-        const std::string base = rng.range(0, 3) == 0 ? text_for_table(t, rng) : t.kp->parameter_info();
+        std::string base = rng.range(0, 3) == 0 ? text_for_table(t, rng) : t.kp->parameter_info();
+        if (rng.range(0, 3) == 0)
+          base = substitute_aliases(t, base, rng);
         t.do_parse(mutate_text(rng, base, rng.range(0, 9) == 0));
         if (k % 10 == 0)
           t.info();
@@ -1535,11 +2026,15 @@ main(int argc, char** argv)
     for (const std::string& text : header_texts)
       {
         table_from_text(t, text, rng);
+        // the aliases that the library registers for keywords of this header (the keys keep the spelling of the header)
+        for (const LibAlias& la : g_lib_aliases)
+          if (t.find(t.kp->stdk(la.target)))
+            t.alias(la.target, la.alias, true);
         t.do_parse(text);
         t.info();
         for (int k = 0; k < per_text; ++k)
           {
-            t.do_parse(mutate_text(rng, text, false));
+            t.do_parse(mutate_text(rng, rng.range(0, 2) == 0 ? substitute_aliases(t, text, rng) : text, false));
             if (k % 8 == 0)
               t.info();
           }
@@ -1563,7 +2058,9 @@ main(int argc, char** argv)
         t.info();
         for (int k = 0; k < 12; ++k)
           {
-            const std::string base = rng.coin() ? text_for_table(t, rng) : t.kp->parameter_info();
+            std::string base = rng.coin() ? text_for_table(t, rng) : t.kp->parameter_info();
+            if (rng.coin())
+              base = substitute_aliases(t, base, rng);
             t.do_parse(rng.range(0, 3) == 0 ? base : mutate_text(rng, base, rng.range(0, 9) == 0));
           }
         t.info();
@@ -1642,6 +2139,157 @@ main(int argc, char** argv)
       }
   }
 
+  // ================================================================ 4c. per-segment lists of a projection-data header
+  // op: pdfsseg <S> <axial positions…> | <min ring differences…>|- | <max ring differences…>|-     ("-": the key is not in the header)
+  // answer: rej (parse()==false) | err (error() thrown) | ok <min segment> <max segment> of the ProjDataInfo that was built.
+  // The header is the library's own (non-TOF) projection-data header with the four size-bearing lines replaced.
+  // ORACLE: accepted => the number of segments equals 'matrix size [4]' and the length of every list that was given.
+  if (header_texts.size() > 0)
+    {
+      const std::vector<std::string> base = split_lines(header_texts[0]);
+      Probe kp;
+      auto line_of = [&](const std::string& stdkey, int index) {
+        for (std::size_t k = 0; k < base.size(); ++k)
+          {
+            const std::size_t as = base[k].find(":=");
+            if (as == std::string::npos || kp.stdk(kp.kw(base[k])) != stdkey)
+              continue;
+            const std::size_t lb = base[k].find('[');
+            const int ix = (lb != std::string::npos && lb < as) ? std::atoi(base[k].c_str() + lb + 1) : 0;
+            if (ix == index)
+              return static_cast<int>(k);
+          }
+        return -1;
+      };
+      const int l_seg = line_of("matrix size", 4), l_ax = line_of("matrix size", 2), l_min = line_of("minimum ring difference per segment", 0),
+                l_max = line_of("maximum ring difference per segment", 0);
+      auto fmt = [](const std::vector<int>& l) {
+        std::string r = "{";
+        for (std::size_t k = 0; k < l.size(); ++k)
+          r += (k ? "," : "") + std::to_string(l[k]);
+        return r + "}";
+      };
+      auto toks = [](const std::vector<int>& l) {
+        std::string r;
+        for (int v : l)
+          r += " " + std::to_string(v);
+        return r;
+      };
+      const int l_rings = line_of("number of rings", 0);
+      const int rings = l_rings < 0 ? 3 : std::atoi(base[l_rings].c_str() + base[l_rings].find(":=") + 2);
+      const int n = (l_seg < 0 || l_ax < 0 || l_min < 0 || l_max < 0) ? 0 : (thorough ? 3000 : 600);
+      ++g_oracle_checks;
+      if (n == 0)
+        oracle_fail("per-segment lists: the library-written projection-data header lacks one of 'matrix size [4]', 'matrix size [2]', the ring-difference lists");
+      for (int k = 0; k < n; ++k)
+        {
+          const int S = rng.range(1, 7);
+          std::vector<int> ax, mn, mx;
+          const int shape = rng.coin() ? 0 : rng.range(1, 3);
+          for (int j = 0; j < S; ++j)
+            {
+              ax.push_back(rng.range(1, 5));
+              if (shape == 0)
+                { // span 1 around segment 0 (S odd) or shifted (S even), with the axial positions of a scanner of `rings` rings
+                  // (anything else is refused later on by the ProjDataInfo constructor: "axial positions do not correspond ...")
+                  mn.push_back(j - S / 2);
+                  mx.push_back(j - S / 2);
+                  ax.back() = std::max(1, rings - std::abs(j - S / 2));
+                }
+              else
+                {
+                  const int a = rng.range(-4, 4), w = rng.range(0, 3);
+                  mn.push_back(a);
+                  mx.push_back(shape == 3 ? -a : a + w);
+                }
+            }
+          if (shape != 0 && rng.coin())
+            { // make sure there is a segment 0
+              const int j = rng.range(0, S - 1);
+              mx[j] = -mn[j] >= mn[j] ? -mn[j] : mn[j];
+              if (mx[j] + mn[j] != 0)
+                mn[j] = mx[j] = 0;
+            }
+          // exactly one (sometimes two) of the lists gets another length; a list may be absent
+          bool has_min = true, has_max = true;
+          auto other_len = [&](std::vector<int>& l) {
+            const int how = rng.range(0, 4);
+            if (how == 0 && !l.empty())
+              l.pop_back();
+            else if (how == 1 && !l.empty())
+              l.erase(l.begin());
+            else if (how == 2)
+              l.push_back(l.empty() ? 1 : l.back() + 1);
+            else if (how == 3)
+              l.insert(l.begin(), l.empty() ? 1 : l.front() - 1);
+            else
+              l.resize(rng.range(0, 9), 1);
+          };
+          int declared = S;
+          switch (rng.range(0, 9))
+            {
+            case 0:
+              other_len(mn);
+              break;
+            case 1:
+              other_len(mx);
+              break;
+            case 2:
+              other_len(ax);
+              if (ax.empty())
+                ax.push_back(1); // `matrix size [2] := {}` is rejected earlier (dimension not present): same answer, other code
+              break;
+            case 3:
+              declared = std::max(1, S + (rng.coin() ? 1 : -1) * rng.range(1, 2));
+              break;
+            case 4:
+              has_min = rng.coin();
+              has_max = !has_min || rng.coin();
+              if (has_min && has_max)
+                {
+                  other_len(mn);
+                  other_len(mx);
+                }
+              break;
+            default: // consistent
+              break;
+            }
+          std::vector<std::string> l = base;
+          l[l_seg] = "!matrix size [4] := " + std::to_string(declared);
+          l[l_ax] = "!matrix size [2] := " + fmt(ax);
+          l[l_min] = has_min ? "minimum ring difference per segment := " + fmt(mn) : std::string("; (no minimum ring differences)");
+          l[l_max] = has_max ? "maximum ring difference per segment := " + fmt(mx) : std::string("; (no maximum ring differences)");
+          std::string ans;
+          try
+            {
+              InterfilePDFSHeader hdr;
+              std::istringstream in(join_lines(l));
+              if (!hdr.parse(in) || !hdr.data_info_sptr)
+                ans = "rej";
+              else
+                {
+                  const int a = hdr.data_info_sptr->get_min_segment_num(), b = hdr.data_info_sptr->get_max_segment_num();
+                  ans = "ok " + std::to_string(a) + " " + std::to_string(b);
+                  ++g_oracle_checks;
+                  const std::size_t nseg = static_cast<std::size_t>(b - a + 1);
+                  if (static_cast<int>(nseg) != declared || ax.size() != nseg || (has_min && mn.size() != nseg) || (has_max && mx.size() != nseg))
+                    oracle_fail("Interfile projection-data header accepted with " + std::to_string(nseg) + " segments although it says 'matrix size [4] := "
+                                + std::to_string(declared) + "', 'matrix size [2] := " + fmt(ax) + "', minimum ring differences " + (has_min ? fmt(mn) : "(absent)")
+                                + ", maximum ring differences " + (has_max ? fmt(mx) : "(absent)"));
+                }
+            }
+          catch (std::bad_alloc&)
+            {
+              throw;
+            }
+          catch (std::exception&)
+            {
+              ans = "err";
+            }
+          emit("pdfsseg " + std::to_string(declared) + toks(ax) + " |" + (has_min ? toks(mn) : std::string(" -")) + " |" + (has_max ? toks(mx) : std::string(" -")), ans);
+        }
+    }
+
   // ================================================================ 5. property oracle on KeyParser itself
   {
     const int n = thorough ? 4000 : 800;
@@ -1710,6 +2358,49 @@ main(int argc, char** argv)
             oracle_fail("KeyParser round trip: parameter_info -> parse (" + ans.substr(0, 3) + ") -> parameter_info differs: " + first_difference(s1, s2));
         }
       }
+    // ---- (a2) aliases resolve to their target whatever the spelling of the registered keyword, of the target named in
+    //           add_alias_key, of the alias, and of the alias on the line
+    {
+      const int na = thorough ? 3000 : 600;
+      for (int k = 0; k < na; ++k)
+        {
+          Probe q;
+          int target_var = -12345, other_var = -777;
+          const std::string key = random_key(rng), al = random_key(rng) + (rng.coin() ? " (old)" : " alt");
+          if (q.stdk(key) == q.stdk(al) || q.stdk(key).empty() || q.stdk(key) == "other key")
+            continue;
+          const std::string registered = rng.range(0, 3) == 0 ? key : equivalent_variant(rng, key);
+          const std::string named = rng.range(0, 3) == 0 ? registered : equivalent_variant(rng, key);
+          const std::string alias_reg = rng.coin() ? al : equivalent_variant(rng, al);
+          const std::string alias_line = rng.range(0, 3) == 0 ? alias_reg : equivalent_variant(rng, al);
+          const bool dep = rng.coin();
+          q.add_start_key("Alias Probe");
+          q.add_key("other key", &other_var);
+          q.add_key(registered, &target_var);
+          q.add_alias_key(named, alias_reg, dep);
+          q.add_stop_key("End Alias Probe");
+          const int val = rng.range(-999, 999);
+          const std::string line = alias_line + (rng.coin() ? ":=" : " := ") + std::to_string(val);
+          std::string tag;
+          try
+            {
+              std::istringstream is("Alias Probe :=\n" + line + "\nEnd Alias Probe :=\n");
+              tag = q.parse(is) ? "ok1" : "ok0";
+            }
+          catch (std::exception&)
+            {
+              tag = "err";
+            }
+          ++g_oracle_checks;
+          if (tag != "ok1" || target_var != val || other_var != -777)
+            oracle_fail("alias does not resolve to its target: key registered as '" + registered + "', add_alias_key('" + named + "', '" + alias_reg
+                        + "', " + (dep ? "true" : "false") + "), line '" + line + "': parse answered " + tag + ", variable = " + std::to_string(target_var)
+                        + " (expected " + std::to_string(val) + ")");
+        }
+    }
+    // ---- (b2) every vectorised key type (int, unsigned, unsigned long, float, double, string, list of ints, list of doubles):
+    //           index 0, negative, 1..size, size+1, beyond
+    vectorised_oracle(rng, thorough);
     // ---- (d) string lists are split at commas and every element is trimmed like a scalar string (no character is lost)
     {
       auto blanks = [&](int maxn) {
